@@ -1128,7 +1128,11 @@ def loops_to_comprehensions(tree):
                                    key=lambda y: (y.lineno, y.col_offset))
                     v_after = bool(later) and not isinstance(later[0].ctx, ast.Store)   # read before being re-bound
                     has_yield = any(isinstance(y, (ast.Yield, ast.YieldFrom, ast.Await, ast.NamedExpr)) for y in ast.walk(elt))
-                    if not uses_x and not v_after and not has_yield and not _does_io(elt):
+                    # per-file loops (`for f in np.unique(files)`) are anchors of the task / scatter-map rules and
+                    # stay loops whatever their body looks like
+                    perfile = any(isinstance(y, ast.Call) and _call_name(y) in ("np.unique", "numpy.unique")
+                                  for y in ast.walk(lp.iter))
+                    if not uses_x and not v_after and not has_yield and not _does_io(elt) and not perfile:
                         comp = ast.ListComp(elt=elt, generators=[ast.comprehension(target=lp.target, iter=lp.iter,
                                                                                     ifs=[], is_async=0)])
                         new = ast.Assign(targets=[ast.Name(id=x, ctx=ast.Store())], value=comp)
